@@ -5,19 +5,22 @@ import Driver.Util
 open PbBss PbBss.Metrics
 namespace Driver
 
-def vec (a : Array String) (off T : Nat) : Fin T → Float :=
-  let v : Vector Float T := Vector.ofFn fun t => fl a off t.val
-  fun t => v[t]
+/-! Compiled Lean eta-expands a definition that returns a function, so data is always held in `Vector`s that
+are bound by `let` in the operation body and only then wrapped into the `Fin n → Float` the models expect. -/
+def vf {T : Nat} (v : Vector Float T) : Fin T → Float := fun t => v[t]
+
+def vecD (a : Array String) (off T : Nat) : Vector Float T := Vector.ofFn fun t => fl a off t.val
+
+def meanPowerAt (a : Array String) (off T : Nat) : Float :=
+  let v := vecD a off T
+  meanPower (vf v)
 
 /-- powers `S[i, j] = mean(x[i, j, :] ** 2)` as a table -/
-def powerTab (a : Array String) (off n m T : Nat) : Fin n → Fin m → Float :=
-  let v : Vector (Vector Float m) n := Vector.ofFn fun i => Vector.ofFn fun j =>
-    meanPower (vec a (off + (i.val * m + j.val) * T) T)
-  fun i j => (v[i])[j]
+def powerTabD (a : Array String) (off n m T : Nat) : Vector (Vector Float m) n :=
+  Vector.ofFn fun i => Vector.ofFn fun j => meanPowerAt a (off + (i.val * m + j.val) * T) T
 
-def powerVec (a : Array String) (off n T : Nat) : Fin n → Float :=
-  let v : Vector Float n := Vector.ofFn fun i => meanPower (vec a (off + i.val * T) T)
-  fun i => v[i]
+def powerVecD (a : Array String) (off n T : Nat) : Vector Float n :=
+  Vector.ofFn fun i => meanPowerAt a (off + i.val * T) T
 
 def fmtTriples (xs : List (Float × Float × Float)) : String :=
   fmtFloats (xs.map (·.1)) ++ " | " ++ fmtFloats (xs.map (·.2.1)) ++ " | " ++ fmtFloats (xs.map (·.2.2))
@@ -41,21 +44,27 @@ def opsMetrics (a : Array String) : Option String :=
   | "sisdr" =>
     -- sisdr B T <reference B*T> <estimation B*T>
     let B := tokNat a 1; let T := tokNat a 2
-    some (fmtFloats ((List.range B).map fun b => siSdr (vec a (3 + b*T) T) (vec a (3 + B*T + b*T) T)))
+    some (fmtFloats ((List.range B).map fun b =>
+      let s := vecD a (3 + b*T) T; let e := vecD a (3 + B*T + b*T) T
+      siSdr (vf s) (vf e)))
   | "getsnr" =>
     -- getsnr T <X> <N>
     let T := tokNat a 1
-    some (fmtFloats [getSnr (vec a 2 T) (vec a (2 + T) T)])
+    let X := vecD a 2 T; let N := vecD a (2 + T) T
+    some (fmtFloats [getSnr (vf X) (vf N)])
   | "getsnrc" =>
     -- getsnrc T <X re> <X im> <N re> <N im>
     let T := tokNat a 1
-    some (fmtFloats [snrOfPowers (meanPowerC (vec a 2 T) (vec a (2 + T) T))
-      (meanPowerC (vec a (2 + 2*T) T) (vec a (2 + 3*T) T))])
+    let xr := vecD a 2 T; let xi := vecD a (2 + T) T; let nr := vecD a (2 + 2*T) T; let ni := vecD a (2 + 3*T) T
+    some (fmtFloats [snrOfPowers (meanPowerC (vf xr) (vf xi))
+      (meanPowerC (vf nr) (vf ni))])
   | "setsnr" =>
     -- setsnr T <snr> <X> <N>
     let T := tokNat a 1
-    let n' := setSnr (vec a 3 T) (vec a (3 + T) T) (tokFloat a 2)
-    some (fmtFloats ((List.finRange T).map n'))
+    let X := vecD a 3 T; let N := vecD a (3 + T) T
+    -- `setSnr X N snr = scaleNoise (snrFactor snr (getSnr X N)) N`, with the factor evaluated once
+    let f := snrFactor (tokFloat a 2) (getSnr (vf X) (vf N))
+    some (fmtFloats ((List.finRange T).map (scaleNoise f (vf N))))
   | "factor" =>
     -- factor <snr> <current>
     some (fmtFloats [snrFactor (tokFloat a 1) (tokFloat a 2)])
@@ -63,8 +72,10 @@ def opsMetrics (a : Array String) : Option String :=
     -- insxr K D T avs avc <images K*D*T> <noise D*T>
     let K := tokNat a 1; let D := tokNat a 2; let T := tokNat a 3
     let avs := tokNat a 4 != 0; let avc := tokNat a 5 != 0
-    let S := powerTab a 6 K D T
-    let N := powerVec a (6 + K*D*T) D T
+    let Sd := powerTabD a 6 K D T
+    let Nd := powerVecD a (6 + K*D*T) D T
+    let S : Fin K → Fin D → Float := fun k d => (Sd[k])[d]
+    let N : Fin D → Float := vf Nd
     some (match avs, avc with
       | false, false => fmtTriples ((List.finRange K).flatMap fun k => (List.finRange D).map fun d => inputSxrFF S N k d)
       | false, true => fmtTriples ((List.finRange K).map fun k => inputSxrFT S N k)
@@ -75,8 +86,10 @@ def opsMetrics (a : Array String) : Option String :=
     let Ks := tokNat a 1; let Kt := tokNat a 2; let T := tokNat a 3
     let avs := tokNat a 4 != 0
     if hKt : 0 < Kt then
-      let S := powerTab a 5 Ks Kt T
-      let N := powerVec a (5 + Ks*Kt*T) Kt T
+      let Sd := powerTabD a 5 Ks Kt T
+      let Nd := powerVecD a (5 + Ks*Kt*T) Kt T
+      let S : Fin Ks → Fin Kt → Float := fun k j => (Sd[k])[j]
+      let N : Fin Kt → Float := vf Nd
       match selectOutputs Ks Kt (extend S) with
       | none => some "raise"
       | some p =>
